@@ -185,3 +185,78 @@ class FaultSeam:
             return f"file.close[{s.mode}] {os.path.basename(s.filename)}"
         except Exception:
             return "file.close ?"
+
+
+class ReadFaultSeam:
+    """Transient faults on the *read* side of the h5py boundary (round 6).
+
+    Every outermost `Dataset.__getitem__`, `Dataset.__array__`, `Dataset.read_direct`, `Dataset.__len__`-free data read and
+    `AttributeManager.__getitem__` is a numbered read point while the seam is armed.  `arm(k, kind)` makes the k-th point
+    from now on fail once (`err`: OSError as of a flaky disk / network file system, `intr`: KeyboardInterrupt), after which
+    the device works again.  The caller then retries; the oracle is "a retry may fail, it never returns wrong data".
+    Nothing is intercepted while disarmed (the wrappers are pass-through)."""
+
+    def __init__(self, on_fire=None):
+        self.left = None
+        self.kind = None
+        self.depth = 0
+        self.fired = []
+        self.points = 0
+        self.on_fire = on_fire
+        self.only = None
+        self._orig = []
+
+    def arm(self, k, kind="err", only=None):
+        self.left, self.kind, self.points, self.only = int(k), kind, 0, only
+
+    def disarm(self):
+        hit = self.left is not None and self.left < 0
+        self.left = None
+        return hit
+
+    def _wrap(self, owner, attr, labeller):
+        orig = getattr(owner, attr)
+        seam = self
+
+        def wrapper(*a, **kw):
+            if seam.left is None or seam.left < 0 or seam.depth > 0:
+                return orig(*a, **kw)
+            try:
+                label = labeller(*a, **kw)
+            except Exception:
+                label = attr
+            if seam.only is not None and seam.only not in label:
+                return orig(*a, **kw)
+            seam.points += 1
+            if seam.left == 0:
+                seam.left = -1
+                seam.fired.append((seam.kind, label))
+                if seam.on_fire is not None:
+                    seam.on_fire(seam.kind, label)
+                if seam.kind == "intr":
+                    raise KeyboardInterrupt(f"injected interrupt at {label}")
+                raise InjectedIOError(errno.EIO, f"injected read fault at {label}")
+            seam.left -= 1
+            seam.depth += 1
+            try:
+                return orig(*a, **kw)
+            finally:
+                seam.depth -= 1
+        wrapper.__name__ = getattr(orig, "__name__", attr)
+        wrapper.__wrapped__ = orig
+        self._orig.append((owner, attr, orig))
+        setattr(owner, attr, wrapper)
+
+    def install(self):
+        D, A = h5py.Dataset, h5py.AttributeManager
+        self._wrap(D, "__getitem__", lambda s, *a, **k: f"ds.getitem {s.name}")
+        self._wrap(D, "__array__", lambda s, *a, **k: f"ds.array {s.name}")
+        self._wrap(D, "read_direct", lambda s, *a, **k: f"ds.read_direct {s.name}")
+        self._wrap(A, "__getitem__", lambda s, name, *a, **k: f"attr.get {name}")
+        return self
+
+    def uninstall(self):
+        self.left = None
+        for owner, attr, orig in reversed(self._orig):
+            setattr(owner, attr, orig)
+        self._orig = []
